@@ -122,6 +122,12 @@ def check(v, prop, families, extra_clause_props=(), also=()):
     thorough = common.tier() == 'thorough'
     seed = common.seed()
     jobs = []
+    if any(fam['family'] == 'tlc' for fam in families):
+        # spec -> code: behaviours of the design model, generated by `tlc -simulate`, become driver schedules
+        from . import tlcsched
+        path, nb = tlcsched.generate(40 if not thorough else 400)
+        v.add('tlc_generated_behaviours', nb)
+        families = [dict(fam, knobs=dict(fam.get('knobs', {}), file=path)) if fam['family'] == 'tlc' else fam for fam in families]
     for fam in families:
         n = fam['thorough'] if thorough else fam['quick']
         jobs += split_jobs(fam['family'], seed, n, fam.get('knobs', {}), per=fam.get('per', 25), first=fam.get('first', 0))
